@@ -238,6 +238,13 @@ def run_impl(case, sandbox: Path):
 
     async def go():
         settings = sim.make_settings(root, up)
+        key = sum(len(p) * 7 + len(sc["first"]) for p, sc in case["scripts"].items()) + len(case["fs"])
+        if settings.aiofile_factory is None or sim.want_real_writer(key):
+            real = await sim.real_writer_factory(root)
+            if real is not None:
+                settings.aiofile_factory = real
+            elif settings.aiofile_factory is None:
+                raise RuntimeError("neither the simulated nor the tool's own file writer can be built")
         d = SimDownloader(settings=settings)
         d.upstream = up
         d.add(df)
